@@ -22,9 +22,11 @@ type impFn struct {
 	retSelf    bool            // the single result is the receiver pointer itself
 	bigFresh   map[string]bool // big.Int variables currently bound to a fresh object (pool.BigInt.Get): may be overwritten
 	bigUninit  map[string]bool // … whose contents have not been set yet: may not be read
+	bigLocal   map[string]bool // `var x big.Int` locals (values owned by the function)
 	evRecv     bool            // the "receiver" is the event list of a callback parameter
 	fuels      []string        // explicit fuel parameters (loops without a recognised counting pattern)
 	usesNumCPU bool
+	inLoopNow  bool   // the statement being translated is inside a loop body
 	recv       string // receiver variable ("" = none); passed and returned by value
 	results    []*ity
 	scopes     []map[string]*ity
@@ -62,7 +64,7 @@ var leanReserved = map[string]bool{"end": true, "from": true, "at": true, "show"
 	"some": true, "none": true, "len": true, "copy": true, "index": true, "deref": true, "makeBytes": true, "bytesOfString": true, "numCPU": true, "fuel_": true, "shl64": true, "uintOfInt": true, "min": true, "max": true, "hSize": true, "hBlockSize": true, "copyAt": true, "setAt": true, "byteOfInt": true, "mul": true, "one": true, "inv": true, "F": true}
 
 func lname(n string) string {
-	if leanReserved[n] {
+	if leanReserved[n] || impExtraReserved[n] {
 		return n + "'"
 	}
 	return n
@@ -88,6 +90,9 @@ func (f *impFn) declare(at ast.Node, n string, t *ity) {
 	}
 	if f.lookup(n) != nil {
 		f.p.die(at, "declaration of %s shadows / repeats a live variable (outside the subset)", n)
+	}
+	if f.p.tg.digest && digestReserved[n] {
+		f.p.die(at, "the variable %s has the name of a parameter of the generated defs", n)
 	}
 	f.scopes[len(f.scopes)-1][n] = t
 	for _, d := range f.declOrd {
@@ -161,6 +166,11 @@ func nilTests(e ast.Expr, op token.Token, cmp token.Token, out *[]string) {
 
 func (f *impFn) expr(e ast.Expr, want *ity, c *ictx) (string, *ity) {
 	p := f.p
+	if p.tg.digest {
+		if s, t, ok := f.digestExpr(e, want, c); ok {
+			return s, t
+		}
+	}
 	switch v := e.(type) {
 	case *ast.ParenExpr:
 		return f.expr(v.X, want, c)
@@ -219,6 +229,10 @@ func (f *impFn) expr(e ast.Expr, want *ity, c *ictx) (string, *ity) {
 		p.die(e, "no field %s", v.Sel.Name)
 	case *ast.IndexExpr:
 		xs, xt := f.expr(v.X, nil, c)
+		if xt.k == "array" && xt.elem.k == "grp" {
+			_, get, _ := f.grpLval(v, c)
+			return get, xt.elem
+		}
 		if xt.k != "slice" {
 			p.die(e, "index expression on %v (map reads only as `v, ok := m[k]`)", xt)
 		}
@@ -385,8 +399,22 @@ func (f *impFn) binary(v *ast.BinaryExpr, want *ity, c *ictx) (string, *ity) {
 			p.die(v, "^ on %v, %v (only bytes)", xt, yt)
 		}
 		return parenImp(xs) + " ^^^ " + parenImp(ys), tyByte
+	case token.AND, token.OR:
+		xs, xt, ys, yt := f.operands(v, want, c)
+		if !xt.eq(yt) || !(xt.k == "byte" || xt.k == "uint64") {
+			p.die(v, "%s on %v, %v (only bytes / uint64)", v.Op, xt, yt)
+		}
+		return parenImp(xs) + map[token.Token]string{token.AND: " &&& ", token.OR: " ||| "}[v.Op] + parenImp(ys), xt
 	case token.SHR:
 		xs, xt := f.expr(v.X, tyInt, c)
+		if xt.k == "byte" || xt.k == "uint64" {
+			// x >> n with a signed count n (a negative count panics in Go: not modelled); the value is computed on the naturals
+			ns, nt := f.expr(v.Y, tyInt, c)
+			if nt.k != "int" {
+				p.die(v, ">> count of type %v", nt)
+			}
+			return map[string]string{"byte": "shrByte ", "uint64": "shr64 "}[xt.k] + parenImp(xs) + " " + parenImp(ns), xt
+		}
 		n := litInt(v.Y)
 		if xt.k != "int" || n == nil {
 			p.die(v, ">> form (only int >> literal: arithmetic shift = floor division by 2^n)")
@@ -415,6 +443,9 @@ func (f *impFn) binary(v *ast.BinaryExpr, want *ity, c *ictx) (string, *ity) {
 			case token.REM:
 				return parenImp(xs) + " % " + parenImp(ys), tyU64
 			}
+		}
+		if xt.k == "byte" && yt.k == "byte" && (v.Op == token.SUB || v.Op == token.ADD) { // UInt8 arithmetic wraps, as in Go
+			return parenImp(xs) + " " + v.Op.String() + " " + parenImp(ys), tyByte
 		}
 		if xt.k != "int" || yt.k != "int" {
 			p.die(v, "%s on %v, %v", v.Op, xt, yt)
@@ -514,6 +545,10 @@ func (f *impFn) call(v *ast.CallExpr, want *ity, c *ictx) (string, *ity) {
 					return "bigSign " + xs, tyInt
 				case se.Sel.Name == "BitLen" && len(v.Args) == 0:
 					return "bigBitLen " + xs, tyInt
+				case se.Sel.Name == "Bytes" && len(v.Args) == 0 && p.tg.grp != "":
+					return "bigBytes " + xs, tyBytes // big-endian bytes of |x|, no leading zero ([] for 0)
+				case se.Sel.Name == "Bits" && len(v.Args) == 0 && p.tg.grp != "":
+					return "bigWords " + xs, &ity{k: "slice", elem: tyU64} // little-endian 64-bit words of |x|, normalised (64-bit platform)
 				case se.Sel.Name == "Bit" && len(v.Args) == 1:
 					is, it := f.expr(v.Args[0], tyInt, c)
 					if it.k != "int" {
